@@ -240,3 +240,56 @@ Qed.
 
 Lemma digit_ascii c : is_digit c = true -> (c <? 128)%N = true.
 Proof. unfold is_digit. lia. Qed.
+
+(* ---------------------------------------------------------------- how long str(n) is *)
+Lemma digs_val_lower ds : forall acc, 0 <= acc ->
+  acc * 10 ^ Z.of_nat (List.length ds) <= digs_val ds acc.
+Proof.
+  induction ds as [|c r IH]; intros acc Hacc.
+  - simpl. lia.
+  - cbn [digs_val List.length]. rewrite Nat2Z.inj_succ, Z.pow_succ_r by lia.
+    assert (Hd : 0 <= dval c) by (unfold dval; lia).
+    specialize (IH (10 * acc + dval c) ltac:(lia)).
+    assert (Hp : 0 < 10 ^ Z.of_nat (List.length r)) by (apply Z.pow_pos_nonneg; lia).
+    nia.
+Qed.
+
+Lemma to_uint_no_leading_zero p u : Pos.to_uint p <> Decimal.D0 u.
+Proof.
+  intros E.
+  assert (Hn : Decimal.unorm (Pos.to_uint p) = Pos.to_uint p).
+  { rewrite <- DecimalPos.Unsigned.to_of. rewrite DecimalPos.Unsigned.of_to. reflexivity. }
+  unfold Decimal.unorm in Hn. destruct (Decimal.nzhead (Pos.to_uint p)) eqn:Hz.
+  - pose proof (DecimalPos.Unsigned.of_to p) as Hv. rewrite <- Hn in Hv. discriminate.
+  - exact (DecimalFacts.nzhead_nonzero _ _ Hz).
+  - rewrite E in Hn; discriminate.
+  - rewrite E in Hn; discriminate.
+  - rewrite E in Hn; discriminate.
+  - rewrite E in Hn; discriminate.
+  - rewrite E in Hn; discriminate.
+  - rewrite E in Hn; discriminate.
+  - rewrite E in Hn; discriminate.
+  - rewrite E in Hn; discriminate.
+  - rewrite E in Hn; discriminate.
+Qed.
+
+Lemma str_of_Z_len n k : 0 <= n < 10 ^ k -> 0 < k -> Z.of_nat (List.length (str_of_Z n)) <= k.
+Proof.
+  intros [Hn Hlt] Hk. destruct n as [|p|p]; try lia.
+  - cbn. lia.
+  - pose proof (str_of_Z_nonneg (Zpos p) ltac:(lia)) as (_ & Hd & Hv).
+    unfold str_of_Z in *. cbn [Z.to_int] in *.
+    pose proof (to_uint_no_leading_zero p) as Hz.
+    pose proof (DecimalPos.Unsigned.to_uint_nonnil p) as Hnn.
+    assert (Hlow : forall c r, uint_chars (Pos.to_uint p) = c :: r -> 1 <= dval c ->
+                               Z.of_nat (List.length (c :: r)) <= k).
+    { intros c r E Hc. rewrite E in Hv. cbn [digs_val] in Hv.
+      pose proof (digs_val_lower r (10 * 0 + dval c) ltac:(lia)) as Hl.
+      destruct (Z_lt_ge_dec (Z.of_nat (List.length r)) k) as [Hs|Hs].
+      - cbn [List.length]. lia.
+      - exfalso. assert (10 ^ k <= 10 ^ Z.of_nat (List.length r)) by (apply Z.pow_le_mono_r; lia).
+        assert (0 < 10 ^ Z.of_nat (List.length r)) by (apply Z.pow_pos_nonneg; lia). nia. }
+    destruct (Pos.to_uint p) as [|u|u|u|u|u|u|u|u|u|u] eqn:E; try congruence;
+      try (exfalso; exact (Hz u eq_refl));
+      cbn [uint_chars] in *; eapply Hlow; try reflexivity; unfold dval; simpl; lia.
+Qed.
